@@ -1071,7 +1071,7 @@ class Transformer:
                 # to change.
                 if on_day_of_week != 0 and on_day_of_month != 0:
                     if (-7 <= on_day_of_month
-                            and on_day_of_month < -1
+                            and on_day_of_month <= -1
                             and rule['inMonth'] == 1):
                         valid = False
                         _add_reason(
